@@ -97,7 +97,7 @@ impl Prop for EarlyStop {
         let exact = k == 1;
         // everything happens inside ONE simulated execution: prefix runs 0..=N, then the
         // thresholded runs
-        type Out = (Vec<SolveOut>, Vec<(f64, &'static str, SolveOut)>);
+        type Out = (Vec<SolveOut>, Vec<(f64, &'static str, u64, SolveOut)>);
         let sim = simulate(&case.sched, move || -> Result<Out, String> {
             let game = model.build().map_err(|e| format!("{e:?}"))?;
             let mut prefixes = vec![];
@@ -131,7 +131,17 @@ impl Prop for EarlyStop {
             for (thr, label) in thresholds {
                 let mut c = b2.clone();
                 c.thresh = thr;
-                runs.push((thr, label, observed_solve(&game, &c)));
+                runs.push((thr, label, n, observed_solve(&game, &c)));
+                // the same threshold under an unlimited (u64::MAX) and a huge budget, where the
+                // history shows that the threshold is reached within the first n iterations
+                if (1..=n as usize).any(|t| hist[t] < thr) {
+                    for big in [u64::MAX, n + 1_000_000_007] {
+                        let mut c = b2.clone();
+                        c.thresh = thr;
+                        c.t = big;
+                        runs.push((thr, label, big, observed_solve(&game, &c)));
+                    }
+                }
             }
             Ok((prefixes, runs))
         });
@@ -161,8 +171,11 @@ impl Prop for EarlyStop {
         }
         m.nontrivial_key = Some(case.config_hash() ^ traces[0].hash());
         let btol = bound_tol(st.d(), st.n());
-        for (thr, label, o) in &runs {
+        for (thr, label, budget, o) in &runs {
             o.hash_into(&mut h);
+            if *budget == u64::MAX {
+                m.add("probe_unlimited_budget_with_reachable_threshold", 1);
+            }
             let s = match &o.result {
                 Ok(s) => s,
                 Err(e) => return finish(m, h, viol("solve-error", "", format!("{e:?}")), traces),
@@ -219,7 +232,7 @@ impl Prop for EarlyStop {
                         "early-stop-mismatch",
                         *label,
                         format!(
-                            "{} {} N={n} K={k} r={thr:e} ({label}): result should equal the unthresholded run with budget t*={tstar} (bound history {:?}); it equals the prefix with budget {:?}; returned bound {:e}",
+                            "{} {} N={budget} K={k} r={thr:e} ({label}): result should equal the unthresholded run with budget t*={tstar} (bound history {:?}); it equals the prefix with budget {:?}; returned bound {:e}",
                             case.method.name(),
                             case.params.name(),
                             pre.iter().map(|s| s.total_bound).collect::<Vec<_>>(),
@@ -230,7 +243,7 @@ impl Prop for EarlyStop {
                     traces,
                 );
             }
-            if tstar < n as usize && !(s.total_bound < *thr) {
+            if (tstar < n as usize || *budget > n) && !(s.total_bound < *thr) {
                 return finish(m, h, viol("early-stop-bound-not-below-threshold", *label, format!("stopped after {tstar} < {n} iterations but bound {} is not < r={thr}", s.total_bound)), traces);
             }
         }
@@ -255,7 +268,7 @@ impl Prop for EarlyStop {
     }
 
     fn rule(&self) -> String {
-        "one run = one seeded case (generated game x method x parameter set x budget N <= 24 quick / 40 thorough x sampling seed x K in {1 (bit-exact), 2..4 (tolerances)} x scheduler policy), executed as ONE simulated execution: prefix solves with budgets 0..N and threshold 0 give the bound history; then solves with r in {-1, 0, NaN, +inf} and 8 thresholds drawn from {b_t(1-eps), b_t, b_t(1+eps)} must equal the prefix run with budget t* = first t with max bound < r (N if none). Every run is non-trivial (>= 12 thresholded solves judged); distinct = distinct (configuration, scheduler-decision sequence) hashes".into()
+        "one run = one seeded case (generated game x method x parameter set x budget N <= 24 quick / 40 thorough x sampling seed x K in {1 (bit-exact), 2..4 (tolerances)} x scheduler policy), executed as ONE simulated execution: prefix solves with budgets 0..N and threshold 0 give the bound history; then solves with r in {-1, 0, NaN, +inf} and 8 thresholds drawn from {b_t(1-eps), b_t, b_t(1+eps)} must equal the prefix run with budget t* = first t with max bound < r (N if none); every threshold that is reached within N iterations is also run with budget u64::MAX (unlimited) and N+1e9 and must give the same prefix. Every run is non-trivial (>= 12 thresholded solves judged); distinct = distinct (configuration, scheduler-decision sequence) hashes".into()
     }
 
     fn assumptions(&self) -> Vec<String> {
